@@ -324,7 +324,7 @@ class CallMixin:
                 for j, v in enumerate(extra):
                     st.assume(smt.titem(t, z3.IntVal(j)) == v)
                 jx = z3.Const(fresh_name("j!at"), z3.IntSort())
-                st.assume(z3.ForAll([jx], z3.Implies(z3.And(0 <= jx, jx < smt.tlen(star)),
+                st.assume(smt.forall([jx], z3.Implies(z3.And(0 <= jx, jx < smt.tlen(star)),
                                                      smt.titem(t, len(extra) + jx) == smt.titem(star, jx)),
                                     patterns=[smt.titem(star, jx)]))
                 st.assume(st.heap.sel("$alloc", t))
@@ -371,6 +371,12 @@ class CallMixin:
         env0 = SpecEnv(self.eng, names, st.heap, st.heap, fx=self)
         for i, r in enumerate(c.requires):
             self.oblige(st, "call-pre", "%s.%d" % (lab, i + 1), env0.formula(r), ln)
+        try:
+            ctext = ast.unparse(node.func) if isinstance(node, ast.Call) else None
+        except Exception:
+            ctext = None
+        for i, r in enumerate(self.contract.labels.get("site_requires", {}).get(ctext, [])):
+            self.oblige(st, "site-pre", "%s.%d" % (lab, i + 1), self.spec_env(st).formula(r), ln)
         if c.raw_requires:
             for j, g in enumerate(c.raw_requires(env0)):
                 self.oblige(st, "call-pre", "%s.r%d" % (lab, j + 1), g, ln)
@@ -406,7 +412,10 @@ class CallMixin:
                 st.assume(z3.Not(cond))
         old = st.heap.copy()
         key = "$calls:" + cname
+        if self.dry:
+            self.probe_callees.add(cname)
         st.ghost[key] = st.ghost.get(key, 0) + 1
+        st.ghost["$callseq"] = tuple(st.ghost.get("$callseq", ())) + (cname,)
         if c.pure_fn:
             params = [p for p in (c.params or []) if not p.startswith("*")]
             f = z3.Function("pf!" + c.pure_fn, *([V] * len(params) + [V]))
@@ -438,7 +447,7 @@ class CallMixin:
                         st.assume(z3.Implies(z3.And(*io), z3.And(*inw)))
             if "$alloc" in c.modifies:
                 x = z3.Const(fresh_name("x!al"), V)
-                st.assume(z3.ForAll([x], z3.Implies(old.sel("$alloc", x), st.heap.sel("$alloc", x))))
+                st.assume(smt.forall([x], z3.Implies(old.sel("$alloc", x), st.heap.sel("$alloc", x))))
         st.assume(st.heap.sel("$alloc", res)) if not c.pure_fn else None
         # exceptional continuation
         if c.xpost is not None:
@@ -639,7 +648,7 @@ class CallMixin:
                 st2.heap.store("$llen", o, smt.tlen(vs[0]))
                 arr = z3.Const(fresh_name("l_of_t"), z3.ArraySort(z3.IntSort(), V))
                 i = z3.Const(fresh_name("i!lt"), z3.IntSort())
-                st2.assume(z3.ForAll([i], z3.Select(arr, i) == smt.titem(vs[0], i), patterns=[z3.Select(arr, i)]))
+                st2.assume(smt.forall([i], z3.Select(arr, i) == smt.titem(vs[0], i), patterns=[z3.Select(arr, i)]))
                 st2.heap.store("$litem", o, arr)
             else:
                 hint = self.contract.calls.get("list(%s)" % ast.unparse(a))
@@ -665,7 +674,7 @@ class CallMixin:
                 st2.assume(smt.tlen(tv) == st2.heap.sel("$llen", vs[0]))
                 i = z3.Const(fresh_name("i!tl"), z3.IntSort())
                 items = st2.heap.sel("$litem", vs[0])
-                st2.assume(z3.ForAll([i], smt.titem(tv, i) == z3.Select(items, i), patterns=[smt.titem(tv, i)]))
+                st2.assume(smt.forall([i], smt.titem(tv, i) == z3.Select(items, i), patterns=[smt.titem(tv, i)]))
                 st2.assume(st2.heap.sel("$alloc", tv))
                 yield st2, tv, None
             elif t == "tuple":
